@@ -12,6 +12,12 @@ Import ListNotations.
 Fact C15_facts_as_modelled : gen_cfg = std_cfg.
 Proof. vm_compute. reflexivity. Qed.
 
+(* a JoinNumericPlugin whose settings do not mention `enableNormalize` normalises (Generated/RewriteFacts.v reads both
+   spellings of the settings struct): the pipeline cases configure the key as true and as absent with the same expectation *)
+From SudachiVerif Require Generated.RewriteFacts.
+Fact C15_fact_enable_normalize_default : Generated.RewriteFacts.enable_normalize_when_absent = true.
+Proof. vm_compute. reflexivity. Qed.
+
 (* The string arithmetic of StringNumber refines exact decimals (digit strings before / after the point, of any length):
    the abstraction commutes with normalize_scale (identity), append (one more digit), shift_scale (x 10^k, "empty means
    1"), set_point, add (succeeds exactly when the integer part of the addend fits below the current scale, and then the
